@@ -34,6 +34,9 @@ pub enum Entry {
     /// the two run modes called in sequence by the harness over a shared cache, the
     /// post view being the harness's own
     TwoModes,
+    /// `check_set_predicates` itself in both modes (shared cache, harness's post view): the
+    /// raw data outputs are the observable, reported here as pseudo-mutations `([], memory)`
+    RawOutputs,
 }
 
 #[derive(Clone, Debug, Serialize, Deserialize, PartialEq)]
